@@ -377,6 +377,15 @@ def run(ctx, cases_override=None):
     reg_ids = set()
     for drv, tops in GROUPS:
         out = ctx["run_driver"](ctx["cpp"][drv], ["i0 ids"], shards=1)
+        if drv == "params" and not cases_override:
+            # defaults that depend on the VALUE TYPE (block values): default constructor vs property-tree constructor on an empty tree
+            bo = ctx["run_driver"](ctx["cpp"][drv], ["b0 blockdefaults"], shards=1).get("b0")
+            st["oracle_checks"] += 1
+            if bo != "OK":
+                st["oracle_fail"] += 1
+                fails.append(dict(kind="counterexample", case="b0 blockdefaults", impl=bo, model="OK", op="blockdefaults", size=16,
+                                  oracle=dict(statement="params() == params(empty ptree) for builtin<static_matrix<double,2,2>>", outcome=bo),
+                                  theorem="C14: a missing key leaves the default of the default constructor -- also for block value types, whose defaults differ from the scalar ones"))
         reg_ids |= set((out.get("i0") or "").split())
     for s in data["structs"]:
         if s["id"] not in reg_ids and s["id"] not in NOT_INSTANTIATED:
